@@ -76,7 +76,10 @@ func (e *Engine) ptrAdd(p *Ptr, delta int) *Ptr {
 	if delta == 0 {
 		return p
 	}
-	out := &Ptr{Alts: make([]PtrAlt, len(p.Alts))}
+	if p.View > 1 {
+		delta *= p.View
+	}
+	out := &Ptr{Alts: make([]PtrAlt, len(p.Alts)), View: p.View}
 	for i, a := range p.Alts {
 		out.Alts[i] = PtrAlt{G: a.G, Obj: a.Obj, Off: a.Off + delta}
 	}
@@ -90,7 +93,10 @@ func (e *Engine) ptrIndex(p *Ptr, idx *Term, stride int, n int) *Ptr {
 		return e.ptrAdd(p, int(idx.Val.Int64())*stride)
 	}
 	vals := e.enumIndex(idx, n)
-	out := &Ptr{}
+	out := &Ptr{View: p.View}
+	if p.View > 1 {
+		stride *= p.View
+	}
 	for _, v := range vals {
 		for _, a := range p.Alts {
 			out.Alts = append(out.Alts, PtrAlt{G: e.st.And(a.G, v.g), Obj: a.Obj, Off: a.Off + v.k*stride})
@@ -152,7 +158,7 @@ func (e *Engine) normPtr(p *Ptr) *Ptr {
 		off int
 	}
 	m := map[key]int{}
-	out := &Ptr{}
+	out := &Ptr{View: p.View}
 	for _, a := range p.Alts {
 		if a.G.IsFalse() {
 			continue
@@ -197,7 +203,10 @@ func (e *Engine) mergeValue(c *Term, a, b Value) Value {
 		if samePtr(x, y) {
 			return x
 		}
-		out := &Ptr{}
+		if x.View != y.View {
+			panic(unsupported("merge of pointers with different views"))
+		}
+		out := &Ptr{View: x.View}
 		xa, ya := x.Alts, y.Alts
 		if len(xa) == 0 {
 			xa = []PtrAlt{{G: e.st.True()}}
@@ -327,6 +336,9 @@ func isErrorLike(t types.Type) bool {
 func samePtr(a, b *Ptr) bool {
 	if a == b {
 		return true
+	}
+	if a.View != b.View {
+		return false
 	}
 	if len(a.Alts) != len(b.Alts) {
 		return false
